@@ -31,6 +31,8 @@ type c14Shared struct {
 	w3    *spg.WLRecipe
 	sf    spg.SFFunction
 	c2    spg.CharRecipe // class flags: Allow, Require and Exclude all set
+	sfBad spg.SFFunction // its recipe is refused: the error path of separator functions
+	w4    *spg.WLRecipe
 }
 
 func newC14Shared() *c14Shared {
@@ -51,6 +53,9 @@ func newC14Shared() *c14Shared {
 	x.w2.SeparatorFunc = spg.SFDigits1
 	x.sf = spg.NewSFFunction(spg.CharRecipe{Length: 1, AllowChars: "xy", RequireSets: []string{"z"}})
 	x.c2 = spg.CharRecipe{Length: 3, Allow: spg.Lowers, Require: spg.Digits | spg.Symbols, Exclude: spg.Ambiguous}
+	x.sfBad = spg.NewSFFunction(spg.CharRecipe{Length: 1, Allow: spg.Lowers, Require: spg.Digits | spg.Symbols})
+	x.w4 = spg.NewWLRecipe(3, wl)
+	x.w4.SeparatorFunc = x.sfBad
 	x.w3 = spg.NewWLRecipe(2, wl)
 	x.w3.Capitalize = spg.CSAll
 	x.w3.SeparatorFunc = x.sf
@@ -119,6 +124,8 @@ var c14Scenarios = []c14Scenario{
 	{"WL two calls each: Generate,Generate || Generate,Entropy", [][]string{{"w.Generate", "w.Generate"}, {"w.Generate", "w.Entropy"}}},
 	{"w3.Generate (uses sf) || sf()", [][]string{{"w3.Generate"}, {"sf()"}}},
 	{"w3.Generate || w3.Entropy || w.Generate", [][]string{{"w3.Generate"}, {"w3.Entropy"}, {"w.Generate"}}},
+	{"failing separator function: sfBad()||sfBad()", [][]string{{"sfBad()"}, {"sfBad()"}}},
+	{"recipe with failing separator: w4.Generate||w4.Generate||sfBad()", [][]string{{"w4.Generate"}, {"w4.Generate"}, {"sfBad()"}}},
 	{"class-flag recipe: Generate||Generate", [][]string{{"c2.Generate"}, {"c2.Generate"}}},
 	{"class-flag recipe: Generate||Entropy||Generate(other recipe)", [][]string{{"c2.Generate"}, {"c2.Entropy"}, {"c.Generate"}}},
 }
@@ -389,7 +396,7 @@ func init() {
 		ID:    "C14",
 		Level: "model_checking",
 		Build: "race",
-		Rule: "17 scenarios of 2-3 threads x 1-2 calls on shared CharRecipe, WLRecipe, WordList, constructed and preset separator functions; scheduling points before every statement of package spg and at every lock operation of golang-set (instrumented copy, -race build); ALL schedules with at most 1 deviation from the default schedule (quick; thorough: at most 2 on every two-thread scenario) are executed by a controlled scheduler whose hand-offs are invisible to the race detector; " +
+		Rule: "19 scenarios of 2-3 threads x 1-2 calls on shared CharRecipe, WLRecipe, WordList, constructed and preset separator functions; scheduling points before every statement of package spg and at every lock operation of golang-set (instrumented copy, -race build); ALL schedules with at most 1 deviation from the default schedule (quick; thorough: at most 2 on every two-thread scenario) are executed by a controlled scheduler whose hand-offs are invisible to the race detector; " +
 			"every schedule starts from freshly built shared values (lazily initialised state is cold); oracle per schedule: every call returns what it returns alone on the same random stream, shared values unchanged, no deadlock, race detector silent; non-trivial = distinct (scenario, switches, results) observations",
 		Assume:  []string{"bounded deviations (preemptions and non-default thread choices both cost 1)", "memory-model effects beyond what the race detector flags are not modelled", "helper goroutines spawned by golang-set's Iter() talk only to their spawner and run free"},
 		Run:     c14Run,
